@@ -158,7 +158,7 @@ def leaf_values(el, s, sep):
         if sc["t"] == "leaf" and e.u != "":
             if any(not p.children_flattenable for p in e.parents):
                 continue
-            out.append((e.flattened_name(sep), repr(e.value), sc["k"]))
+            out.append((e.flattened_name(sep), repr(e.value), sc["k"], e.u))
     return out
 
 
@@ -362,11 +362,19 @@ class C01(Property):
                               "observed": [list(p) for p in f1], "state": s0, "pruned_state": expect, "rt_state": s1})
         if f2 != f1:
             fails.append({"clause": "second-trip-stable", "expected": [list(p) for p in f1], "observed": [list(p) for p in f2]})
+        exact = fl.EXACT_TYPES | {"DateMember"}
         if not pruned and not fails:
-            v0 = Counter((k, v) for k, v, kk in leaf_values(el, schema, sep) if kinds[kk]["type"] in fl.EXACT_TYPES | {"DateMember"})
-            v1 = Counter((k, v) for k, v, kk in leaf_values(el1, schema, sep) if kinds[kk]["type"] in fl.EXACT_TYPES | {"DateMember"})
+            v0 = Counter((k, v) for k, v, kk, _ in leaf_values(el, schema, sep) if kinds[kk]["type"] in exact)
+            v1 = Counter((k, v) for k, v, kk, _ in leaf_values(el1, schema, sep) if kinds[kk]["type"] in exact)
             if v0 != v1:
                 fails.append({"clause": "leaf-values-kept", "expected": sorted(v0), "observed": sorted(v1)})
+        elif pruned and not fails:
+            # members may have been dropped and the rest renumbered: the non-empty leaves still carry the same
+            # (text, native value), whatever their key has become
+            v0 = Counter((u, v) for _, v, kk, u in leaf_values(el, schema, sep) if kinds[kk]["type"] in exact)
+            v1 = Counter((u, v) for _, v, kk, u in leaf_values(el1, schema, sep) if kinds[kk]["type"] in exact)
+            if v0 != v1:
+                fails.append({"clause": "leaf-values-kept-pruned", "expected": sorted(v0.elements()), "observed": sorted(v1.elements())})
         return fails
 
     def classify(self, case, failure):
@@ -396,15 +404,10 @@ class C01(Property):
         s0 = fl.extract(el, schema)
         has_sparse = any(s["t"] == "dict" and s["mode"] != "dense" for s in fl.walk_schema(schema))
 
-        # What the leaf-level findings (KF-C01-b/c/f: from_flat necessarily runs each leaf's own set(text))
-        # and the ceiling finding (KF-C01-g: Lists are cut at maximum_set_flat_members) PREDICT is one
-        # function on states: the documented round trip composed with both effects.
-        def trip(st, arrays):
-            return prune_state(settle_state(st, schema, kinds), schema, False, arrays=arrays, ceil=True)
-
-        def same(pairs, st):
-            return [list(p) for p in pairs] == [list(p) for p in flatten_state(st, schema, sep)]
-
+        # What the leaf-level findings (KF-C01-b/c/f: from_flat necessarily runs each leaf's own set(text)),
+        # the ceiling finding (KF-C01-g: Lists are cut at maximum_set_flat_members) and the SparseDict
+        # findings (KF-C01-d/e) PREDICT for one trip is a function of the state the trip starts from:
+        # prune as documented (on the texts as they are), cut at the ceilings, then settle each leaf.
         if clause == "leaf-values-kept":
             if not uns:
                 return None
@@ -416,38 +419,50 @@ class C01(Property):
             if predicted != Counter(map(tuple, obs)):
                 return None
             return leaf_finding({u[0] for u in uns})
-        if clause not in ("identical-flatten", "only-documented-pruning", "second-trip-stable"):
-            return None
-        if not has_sparse:
-            for a1 in (True, False):
-                s1 = trip(s0, a1)
-                if not same(f1, s1):
-                    continue
-                chain = [s0, s1]
-                if clause == "second-trip-stable":
-                    s2 = next((trip(s1, a2) for a2 in (True, False) if same(f2, trip(s1, a2))), None)
-                    if s2 is None:
-                        continue
-                # which recorded effect is at work (in the first state, or — for the second trip — in the rebuilt one)
-                for st in chain:
-                    if over_ceiling(st, schema):
-                        return "KF-C01-g"
-                types = {u[0] for u in uns} | {u[0] for u in unsettled_leaves(el1, schema, kinds, sep)}
-                return leaf_finding(types) if types else None
-            return None
-        # SparseDicts: member order (d) and blank members (e), on top of the effects above
+        if clause == "leaf-values-kept-pruned":
+            if not uns:
+                return None
+            exp, obs = failure.get("expected"), failure.get("observed")
+            sub = {(u[1], u[4]): (u[2], u[5]) for u in uns}
+            predicted = Counter(sub.get((t, v), (t, v)) for t, v in map(tuple, exp))
+            predicted = Counter({tv: n for tv, n in predicted.items() if tv[0] != ""})
+            if predicted != Counter(map(tuple, obs)):
+                return None
+            return leaf_finding({u[0] for u in uns})
         if clause in ("identical-flatten", "only-documented-pruning"):
-            s1 = fl.extract(el1, schema)
+            return self._classify_trip(el, s0, el1, f1, schema, kinds, sep, has_sparse)
+        if clause == "second-trip-stable":
+            # the second trip starts from the rebuilt element; when the first trip was bent by a ceiling or an
+            # unsettled leaf its result need not be stable, and the second trip — behaving exactly as
+            # documented from there — inherits that finding
+            inherited = "KF-C01-g" if over_ceiling(s0, schema) else leaf_finding({u[0] for u in uns})
+            return self._classify_trip(el1, fl.extract(el1, schema), el2, f2, schema, kinds, sep, has_sparse, inherited)
+        return None
+
+    def _classify_trip(self, start_el, start, end_el, observed, schema, kinds, sep, has_sparse, inherited=None):
+        uns = unsettled_leaves(start_el, schema, kinds, sep)
+        over = over_ceiling(start, schema)
+
+        def trip(arrays):
+            return settle_state(prune_state(start, schema, False, arrays=arrays, ceil=True), schema, kinds)
+
+        obs = [list(p) for p in observed]
+        if not has_sparse:
+            if not (uns or over or inherited):
+                return None
             for a1 in (True, False):
-                p0 = trip(s0, a1)
-                if Counter(flatten_state(p0, schema, sep)) == Counter(f1):
-                    return "KF-C01-d"
-            for a1 in (True, False):
-                p0 = trip(s0, a1)
-                n0 = flatten_state(strip_blank_sparse(p0, schema), schema, sep)
-                n1 = flatten_state(strip_blank_sparse(s1, schema), schema, sep)
-                if Counter(n0) == Counter(n1):
-                    return "KF-C01-e"
+                if obs == [list(p) for p in flatten_state(trip(a1), schema, sep)]:
+                    return "KF-C01-g" if over else (leaf_finding({u[0] for u in uns}) if uns else inherited)
+            return None
+        end_state = fl.extract(end_el, schema)
+        for a1 in (True, False):
+            if Counter(map(tuple, flatten_state(trip(a1), schema, sep))) == Counter(map(tuple, obs)):
+                return "KF-C01-d"
+        for a1 in (True, False):
+            n0 = flatten_state(strip_blank_sparse(trip(a1), schema), schema, sep)
+            n1 = flatten_state(strip_blank_sparse(end_state, schema), schema, sep)
+            if Counter(map(tuple, n0)) == Counter(map(tuple, n1)):
+                return "KF-C01-e"
         return None
 
     def nontrivial(self, case, obs):
